@@ -830,6 +830,20 @@ pub fn run(prop: &str, thorough: bool, seed: u64, driver: &str, rep: &mut Report
         },
         rep,
     );
+    // C12: a tree of more than a thousand tips with ONE length missing — height and diameter decide pair by pair (leaf by leaf)
+    // whether to add lengths or to count edges, at any size
+    if prop == "C12" {
+        let mut rng2 = Rng::new(seed ^ 0xb16);
+        let (m1, m2) = (rng2.range(520, 700), rng2.range(520, 700));
+        let bush = |m: usize, tag: &str, len: f64| -> Rose { Rose { name: None, len: Some(1.0), comment: None, kids: (0..m).map(|i| Rose { name: Some(format!("{tag}{i}")), len: Some(len), comment: None, kids: vec![] }).collect() } };
+        let mut big = Rose { name: None, len: None, comment: None, kids: vec![bush(m1, "a", 3.0), bush(m2, "b", 2.0)] };
+        big.kids[0].kids[7].len = None;
+        let start = format!("real.build\tapi\t{}\t0", big.canon());
+        let mut batch = Batch::new("c12.queries");
+        c12_tree(&start, Some(&big), rep, &mut batch, 0, &mut rng2);
+        batch.flush(driver, rep);
+        rep.count("trees_of_more_than_a_thousand_tips_with_one_missing_length");
+    }
     // trees deeper than any fixed bound a path or a traversal might carry
     match prop {
         "C09" => deep_paths(if thorough { 300_000 } else { 70_000 }, rep),
